@@ -92,3 +92,80 @@ Definition Sync (c : cfg) (s : scr) (t : term) : Prop :=
   (s_g1 s = true -> t_g1 t = true) /\
   (g_bce c = true -> t_bce t = true) /\
   (s_buf s <> [] -> grid_shows c (s_buf s) (t_grid t)).
+
+(* ---------- histories: draws, forced clears, size changes ---------- *)
+(* a terminal urwid may start on / find after a size change: any size >= 1x1, ANY content,
+   insert mode off, default charset selected, not scrolled; BCE if urwid believes so *)
+Definition term_start_ok (c : cfg) (t : term) : Prop :=
+  term_ok t /\ t_irm t = false /\ t_scrolled t = false /\ t_ibm t = false /\ t_so t = false /\
+  (g_bce c = true -> t_bce t = true).
+
+(* t' is t with its cells replaced by anything of the same dimensions (what clear() is for) *)
+Definition same_but_cells (t t' : term) : Prop :=
+  t_cols t' = t_cols t /\ t_rows t' = t_rows t /\ zlen (t_grid t') = t_rows t /\
+  Forall (fun r => zlen r = t_cols t) (t_grid t') /\
+  t_irm t' = t_irm t /\ t_so t' = t_so t /\ t_ibm t' = t_ibm t /\ t_g1 t' = t_g1 t /\
+  t_scrolled t' = t_scrolled t /\ t_bce t' = t_bce t.
+
+(* t' is the terminal after a size change: new size, any content, same modes *)
+Definition resized_from (t t' : term) : Prop :=
+  term_ok t' /\ t_irm t' = t_irm t /\ t_so t' = t_so t /\ t_ibm t' = t_ibm t /\ t_g1 t' = t_g1 t /\
+  t_scrolled t' = t_scrolled t /\ t_bce t' = t_bce t.
+
+Definition canvas := (list crow * option (Z * Z))%type.
+
+(* Reach c s t last shown: Screen state s and terminal t are reachable; [last] is the canvas object
+   drawn last (None after a size change); [shown] = the last event was a draw *)
+Inductive Reach (c : cfg) : scr -> term -> option canvas -> bool -> Prop :=
+  | R_start t : term_start_ok c t -> Reach c (init_scr false) t None false
+  | R_draw s t last shown content cursor toks s' :
+      Reach c s t last shown ->
+      canvas_ok c (t_cols t) (t_rows t) content -> cursor_ok (t_cols t) (t_rows t) cursor ->
+      draw_screen c s (t_cols t) (t_rows t) content cursor false = Ok (toks, s') ->
+      Reach c s' (run t toks) (Some (content, cursor)) true
+  | R_redraw s t shown content cursor toks s' :            (* the same canvas object again *)
+      Reach c s t (Some (content, cursor)) shown ->
+      draw_screen c s (t_cols t) (t_rows t) content cursor true = Ok (toks, s') ->
+      Reach c s' (run t toks) (Some (content, cursor)) true
+  | R_clear s t last shown t' :                            (* Screen.clear(), terminal content unknown *)
+      Reach c s t last shown -> same_but_cells t t' ->
+      Reach c (clear s) t' last false
+  | R_resize s t last shown t' :                           (* SIGWINCH delivered and acknowledged *)
+      Reach c s t last shown -> resized_from t t' ->
+      Reach c (ack (winch s)) t' None false.
+
+(* ---------- statements kept in full although only refuted / not proved ---------- *)
+(* like run_ok, but the IBMPC charset "U" (produced by the vterm TermCanvas) is allowed too *)
+Definition run_ok_u (c : cfg) (r : crun) : Prop :=
+  let '(a, cs, text) := r in
+  text <> [] /\ Forall (chr_ok (g_utf8 c)) text /\ (if g_utf8 c then cs = 0 else cs = 0 \/ cs = 1 \/ cs = 2).
+Definition canvas_ok_u (c : cfg) (cols rows : Z) (content : list crow) : Prop :=
+  zlen content = rows /\ Forall (fun row => Forall (run_ok_u c) row /\ row_width row = cols) content.
+
+Fixpoint run_draws (c : cfg) (s : scr) (t : term) (frames : list canvas) : option (scr * term) :=
+  match frames with
+  | [] => Some (s, t)
+  | (content, cursor) :: r =>
+      match draw_screen c s (t_cols t) (t_rows t) content cursor false with
+      | Ok (toks, s') => run_draws c s' (run t toks) r
+      | Err _ => None
+      end
+  end.
+
+(* every history of draws with charsets None/"0"/"U" paints its last canvas *)
+Definition draw_paints_charset_u_full : Prop :=
+  forall c cols rows frames content cursor s t,
+    cfg_ok c -> 1 <= cols -> 1 <= rows ->
+    Forall (fun f : canvas => canvas_ok_u c cols rows (fst f) /\ cursor_ok cols rows (snd f)) (frames ++ [(content, cursor)]) ->
+    run_draws c (init_scr false) (new_term cols rows) (frames ++ [(content, cursor)]) = Some (s, t) ->
+    Paints c t content cursor.
+
+(* partial display (started without the alternate buffer, display origin = terminal row 0):
+   every history of draws shows the rows 0.._rows_used of its last canvas, never scrolling *)
+Definition draw_paints_partial_full : Prop :=
+  forall c cols rows frames content cursor s t,
+    cfg_ok c -> 1 <= cols -> 1 <= rows ->
+    Forall (fun f : canvas => canvas_ok c cols rows (fst f) /\ cursor_ok cols rows (snd f)) (frames ++ [(content, cursor)]) ->
+    run_draws c (init_scr true) (new_term cols rows) (frames ++ [(content, cursor)]) = Some (s, t) ->
+    (forall y row ru, s_ru s = Some ru -> 0 <= y <= ru -> nthz content y = Some row -> row_shows c row (get_row (t_grid t) y))
+    /\ cursor_shown t cursor /\ t_scrolled t = false.
